@@ -414,6 +414,24 @@ pub fn run(ctx: &Ctx) -> i32 {
                     pool_rt.push(m);
                 }
             }
+            // structured header mutations and jumps into immediates
+            let hm = mutate_header(rng, &b.bytes);
+            if let Some(ic) = check_bytes(&hm, rep, "header-mutated") {
+                rep.count("mutants_accepted");
+                if ic {
+                    pool_ic.push(hm);
+                } else {
+                    pool_rt.push(hm);
+                }
+            }
+            if k % 2 == 0 {
+                let il = gen_immediate_landing(rng);
+                if check_bytes(&il, rep, "jump-into-immediate") == Some(false) {
+                    // accepted by the validator: execute it right away
+                    rep.count("jump_into_immediate_accepted");
+                    exec_accepted(rng, rep, "C26", &[il], &[]);
+                }
+            }
             if k % 4 == 0 {
                 let mut r = rng.bytes_below(80);
                 if rng.chance(3, 4) && r.len() >= 3 {
